@@ -27,14 +27,19 @@ pub fn run<T>(f: impl FnOnce() -> TemporalResult<T>, p: impl FnOnce(&T) -> Value
     match catch_unwind(AssertUnwindSafe(|| f().map(|t| p(&t)))) {
         Ok(Ok(v)) => ok(v),
         Ok(Err(e)) => err(kind_of(&e)),
-        Err(_) => err("panic"),
+        Err(p) => err(panic_kind(&p)),
     }
+}
+/// a panic raised by the harness itself (bad generated input) is not an outcome of the code under test
+pub fn panic_kind(p: &Box<dyn std::any::Any + Send>) -> &'static str {
+    let msg = p.downcast_ref::<String>().map(|s| s.as_str()).or_else(|| p.downcast_ref::<&str>().cloned()).unwrap_or("");
+    if msg.starts_with("HARNESS") { "harness-error" } else { "panic" }
 }
 /// Infallible call (may still panic).
 pub fn run_inf<T>(f: impl FnOnce() -> T, p: impl FnOnce(&T) -> Value) -> Value {
     match catch_unwind(AssertUnwindSafe(|| p(&f()))) {
         Ok(v) => ok(v),
-        Err(_) => err("panic"),
+        Err(p) => err(panic_kind(&p)),
     }
 }
 
@@ -47,7 +52,7 @@ pub fn num(v: &Value) -> i128 {
 pub fn f64_exact(v: &Value) -> f64 {
     let n = num(v);
     let f = n as f64;
-    assert!(f as i128 == n, "generator produced a value not exactly representable as f64: {}", n);
+    assert!(f as i128 == n, "HARNESS: generator produced a value not exactly representable as f64: {}", n);
     f
 }
 pub fn ff(v: &Value) -> FiniteF64 { FiniteF64::try_from(f64_exact(v)).expect("finite") }
@@ -117,3 +122,19 @@ pub fn p_ord(o: std::cmp::Ordering) -> Value { json!(o as i8) }
 pub fn p_str(s: &str) -> Value { json!(s) }
 pub fn p_chars(s: &str) -> Value { Value::Array(s.chars().map(|c| json!(c.to_string())).collect()) }
 pub fn dur_keys() -> &'static [&'static str] { &DUR_KEYS }
+
+/// exact decomposition of a double: x = m * 2^e with m an integer (as big) — for totals
+pub fn p_f64(x: f64) -> Value {
+    if x == 0.0 { return json!({"m": big(0), "e": 0}); }
+    let bits = x.to_bits();
+    let sign: i128 = if (bits >> 63) == 1 { -1 } else { 1 };
+    let exp = ((bits >> 52) & 0x7ff) as i64;
+    let frac = (bits & ((1u64 << 52) - 1)) as i128;
+    let (mut m, mut e) = if exp == 0 { (frac, -1074i64) } else { (frac | (1i128 << 52), exp - 1075) };
+    while m % 2 == 0 && e < 0 { m /= 2; e += 1; }
+    json!({"m": big(sign * m), "e": int(e)})
+}
+pub fn arg_relative(v: &Value) -> TemporalResult<Option<temporal_rs::options::RelativeTo>> {
+    if v.is_null() { return Ok(None); }
+    Ok(Some(temporal_rs::options::RelativeTo::PlainDate(arg_date(v)?)))
+}
